@@ -2,9 +2,13 @@
 
 Writes lean/TxdbusModel/Gen/IntroStd.lean:
 
-  * `introEvents`  - `introspection._intro` (the XML text of the three standard interfaces that
-    `generateIntrospectionXML` appends to every exported object) parsed with xml.sax into the list of
-    SAX events (start name attrs / end name), attributes in document order.  The model treats this
+Every entry is derived by PROBING the code of the tree under test (generate XML for probe objects / drive the
+handler with probe events and read the table off the result); the AST of the source is the cross-check where its
+shape is recognised (disagreement = TranslatorError) and its absence is an ADVISORY, not an error.
+
+  * `introEvents`  - the standard-interface blocks `generateIntrospectionXML` appends to every exported
+    object: the document generated for an object without interfaces, parsed with xml.sax into the list of
+    SAX events (start name attrs / end name), attributes in document order; cross-check: `_intro`.  The model treats this
     list as data; the table lemma `std_events` (Proofs/Intro/Doc.lean) shows by evaluation that it is
     exactly what `_getXml` emits for three declared interfaces, so an edit of `_intro` re-checks or
     breaks the C15 theorems.
@@ -14,7 +18,11 @@ Writes lean/TxdbusModel/Gen/IntroStd.lean:
     interface.py).  The model uses the first in the handler and the second in the generator.
 
   * `readableWords`, `writeableWords`, `emitsTrueWords` - the literal tuples of the `in (...)` tests of
-    `start_property` / `start_annotation`.
+    `start_property` / `start_annotation` (AST), cross-checked / replaced by probing the handler over the words
+    the generator can write.
+  * `probeName/Methods/Signals/Properties`, `probeEvents` - a probe interface (methods with and without
+    arguments, a signal, a property per access x change-notification mode) and the events of the XML the real
+    code writes for it; the table lemma `probe_events` shows the model writes the same (templates).
 
 Accepted forms of a string: literal, implicit concatenation, f-string, `+`, module-level str constant.
 Anything else (no single comparison in start_annotation, no single annotation format, other membership
@@ -152,48 +160,242 @@ def _membership_tuples(repo, fname):
     return [t for _, _, t in sorted(out)]
 
 
-def emit(repo):
+# --------------------------------------------------------------------------- probing routes
+ADVISORIES = []
+
+ACCESS_WORDS = ['read', 'write', 'readwrite']
+EMITS_WORDS = ['true', 'false', 'invalidates']
+PROBE_NAME = 'org.probe.Iface'
+# (name, sigIn, sigOut), (name, sig), (name, sig, readable, writeable, emitsOnChange code t/f/i)
+PROBE_METHODS = [('M', 'i', 's'), ('N', '', '')]
+PROBE_SIGNALS = [('S', 'i')]
+PROBE_PROPS = [('P%d%d%s' % (r, w, e), 's', r, w, e) for r in (0, 1) for w in (0, 1) for e in 'tfi']
+
+
+class _NoIfaces:
+    def getInterfaces(self):
+        return []
+
+
+def _doc_events(text):
+    """events of a complete document (DOCTYPE allowed, nothing fetched)"""
+    h = _Rec()
+    p = xml.sax.make_parser()
+    p.setFeature(xml.sax.handler.feature_validation, False)
+    p.setFeature(xml.sax.handler.feature_external_ges, False)
+    p.setFeature(xml.sax.handler.feature_external_pes, False)
+    p.setContentHandler(h)
+    p.parse(StringIO(text))
+    return h.ev
+
+
+def _probe_std_events():
+    """the standard-interface blocks, read off the document generated for an object without interfaces"""
     from txdbus import introspection
-    ev = _events(introspection._intro)
+    text = introspection.generateIntrospectionXML('/probe', {'/probe': _NoIfaces()})
+    if not isinstance(text, str):
+        raise TranslatorError('generateIntrospectionXML returned %r for an exported object' % (text,))
+    ev = _doc_events(text)
+    if len(ev) < 2 or ev[0][:2] != (True, 'node') or ev[-1][:2] != (False, 'node'):
+        raise TranslatorError('probe document is not a single <node> element')
+    return ev[1:-1]
+
+
+def _probe_interface():
+    from txdbus import interface as I
+    emits = {'t': True, 'f': False, 'i': 'invalidates'}
+    members = [I.Method(n, a, r) for n, a, r in PROBE_METHODS]
+    members += [I.Signal(n, a) for n, a in PROBE_SIGNALS]
+    members += [I.Property(n, sg, bool(r), bool(w), emits[e]) for n, sg, r, w, e in PROBE_PROPS]
+    return I.DBusInterface(PROBE_NAME, *members, noRegister=True)
+
+
+def _probe_interface_events():
+    """the <interface> element the real code writes for the probe interface (one method with an in and an
+    out argument, one without arguments, one signal, one property per access x change-notification mode)"""
+    return _events(_probe_interface().introspectionXml)
+
+
+def _probe_generator_annotation_name(ev):
+    names = {dict(attrs).get('name') for st, name, attrs in ev if st and name == 'annotation'}
+    if len(names) != 1 or None in names:
+        raise TranslatorError('probe interface: expected one annotation name on its properties, found %r' % sorted(map(str, names)))
+    return names.pop()
+
+
+def _handler_with_member(member):
+    from txdbus import introspection
+    h = introspection.IntrospectionHandler(True)
+    h.member = member
+    h.isMethod = False
+    return h
+
+
+def _probe_handler_annotation_name(candidate):
+    """does IntrospectionHandler react to an <annotation> of this name (and to no other)?"""
+    from txdbus import interface as I
+    def reacts(name):
+        h = _handler_with_member(I.Property('P', 'i'))
+        before = h.member.emits
+        h.startElement('annotation', {'name': name, 'value': 'false'})
+        return h.member.emits != before
+    if reacts(candidate) and not reacts(candidate + '.other') and not reacts('x' + candidate):
+        return candidate
+    raise TranslatorError('IntrospectionHandler does not react to the annotation name the generator writes (%r)' % candidate)
+
+
+def _probe_emits_word(name, w):
+    from txdbus import interface as I
+    h = _handler_with_member(I.Property('P', 'i', emitsOnChange=False))
+    h.startElement('annotation', {'name': name, 'value': w})
+    return h.member.emits is True
+
+
+def _probe_access(w):
+    from txdbus import introspection
+    h = introspection.IntrospectionHandler(True)
+    h.startElement('property', {'name': 'P', 'type': 'i', 'access': w})
+    return h.member.access
+
+
+def _access_of(r, w):
+    return 'write' if (w and not r) else ('readwrite' if (w and r) else 'read')
+
+
+def _ast_or_none(f, *a):
+    try:
+        return f(*a)
+    except (TranslatorError, OSError, SyntaxError):
+        return None
+
+
+def _ast_generator_annotation_names(repo):
+    """AST route, any function of interface.py (the format may live in a helper of _getXml)"""
+    import re
+    src = open(os.path.join(repo, 'txdbus', 'interface.py'), encoding='utf-8').read()
+    found = set()
+    for sub in ast.walk(ast.parse(src)):
+        if isinstance(sub, (ast.Constant, ast.JoinedStr, ast.BinOp)):
+            try:
+                text = _str_of(sub, 'interface')
+            except TranslatorError:
+                continue
+            for m in re.finditer(r'<annotation\s+name="([^"%]+)"\s+value="', text):
+                found.add(m.group(1))
+    return found
+
+
+def emit(repo):
+    del ADVISORIES[:]
+    from txdbus import introspection
+    # ---- the standard-interface blocks: probed (document of an object without interfaces); the module
+    #      constant `_intro`, when there is one, must say the same
+    ev = _probe_std_events()
+    intro = getattr(introspection, '_intro', None)
+    if isinstance(intro, str):
+        if _events(intro) != ev:
+            raise TranslatorError('the standard blocks of a generated document differ from introspection._intro')
+    else:
+        ADVISORIES.append('introspection._intro is no longer a module-level string: the standard-interface blocks '
+                          'were read off the document generated for an object without interfaces')
+    # ---- the annotation name the generator writes: probed; the AST of interface.py must agree when it shows it
+    pev = _probe_interface_events()
+    ann_gen = _probe_generator_annotation_name(pev)
+    ast_names = _ast_or_none(_ast_generator_annotation_names, repo)
+    if ast_names:
+        if ast_names != {ann_gen}:
+            raise TranslatorError('annotation name: AST of interface.py says %r, the generated XML says %r'
+                                  % (sorted(ast_names), ann_gen))
+    else:
+        ADVISORIES.append('no <annotation name=... value=...> format string recognised in interface.py: the annotation '
+                          'name was read off the XML generated for a probe interface')
+    # ---- the annotation name the handler looks for: AST; probed with the generator's name otherwise / as well
+    ann_h = _ast_or_none(_handler_annotation_name, repo)
+    if ann_h is None:
+        ann_h = _probe_handler_annotation_name(ann_gen)
+        ADVISORIES.append('start_annotation: comparison with the annotation name not recognised; probed the handler '
+                          'with the name the generator writes')
+    else:
+        _probe_handler_annotation_name(ann_h)
+    # ---- the word tuples of start_property / start_annotation: AST; probed over the words the generator can write
+    tp = _ast_or_none(_membership_tuples, repo, 'start_property')
+    probed_access = {w: _probe_access(w) for w in ACCESS_WORDS}
+    if tp is not None and len(tp) == 2:
+        readable, writeable = tp
+        for w in ACCESS_WORDS:
+            if _access_of(w in readable, w in writeable) != probed_access[w]:
+                raise TranslatorError('start_property: tuples %r / %r disagree with the handler on access=%r (%r)'
+                                      % (readable, writeable, w, probed_access[w]))
+    else:
+        readable = [w for w in ACCESS_WORDS if probed_access[w] in ('read', 'readwrite')]
+        writeable = [w for w in ACCESS_WORDS if probed_access[w] in ('write', 'readwrite')]
+        ADVISORIES.append('start_property: the two `in (...)` tests were not recognised; readable / writeable words '
+                          'probed over %r' % (ACCESS_WORDS,))
+    ta = _ast_or_none(_membership_tuples, repo, 'start_annotation')
+    probed_emits = [w for w in EMITS_WORDS if _probe_emits_word(ann_h, w)]
+    if ta is not None and len(ta) == 1:
+        emits_true = ta[0]
+        if [w for w in EMITS_WORDS if w in emits_true] != probed_emits:
+            raise TranslatorError('start_annotation: tuple %r disagrees with the handler (%r)' % (emits_true, probed_emits))
+    else:
+        emits_true = probed_emits
+        ADVISORIES.append('start_annotation: the `in (...)` test was not recognised; words probed over %r' % (EMITS_WORDS,))
+
+    def rows_of(events):
+        rows = []
+        for st, name, attrs in events:
+            a = ', '.join('(%s, %s)' % (_lit(k), _lit(v)) for k, v in attrs)
+            rows.append('  (%s, %s, [%s])' % ('true' if st else 'false', _lit(name), a))
+        return ',\n'.join(rows)
+
     out = []
     out.append('/-')
     out.append('GENERATED by tools/tables/c15_intro.py from txdbus/introspection.py and txdbus/interface.py of the')
     out.append('repository under test.  Do not edit: regenerated on every run.')
     out.append('')
     out.append('`introEvents`: the SAX events (true = startElement with attributes in document order, false =')
-    out.append('endElement) of `introspection._intro`, the text of the three standard interfaces.')
+    out.append('endElement) of the standard-interface blocks `generateIntrospectionXML` appends for an exported object')
+    out.append('(read off a generated document; equal to the events of `introspection._intro`).')
+    out.append('`probe*`: a probe interface and the events of the `<interface>` element the real `_getXml` writes for it.')
     out.append('-/')
     out.append('namespace Txdbus.Gen.IntroStd')
     out.append('')
     out.append('def introEvents : List (Bool × List Char × List (List Char × List Char)) := [')
-    rows = []
-    for st, name, attrs in ev:
-        a = ', '.join('(%s, %s)' % (_lit(k), _lit(v)) for k, v in attrs)
-        rows.append('  (%s, %s, [%s])' % ('true' if st else 'false', _lit(name), a))
-    out.append(',\n'.join(rows))
+    out.append(rows_of(ev))
     out.append(']')
     out.append('')
     out.append('/-- the literal `IntrospectionHandler.start_annotation` compares `attrs[\'name\']` with -/')
-    out.append('def annotationName : List Char := %s' % _lit(_handler_annotation_name(repo)))
+    out.append('def annotationName : List Char := %s' % _lit(ann_h))
     out.append('')
-    out.append('/-- the annotation name inside the format string of `DBusInterface._getXml` -/')
-    out.append('def annotationNameGen : List Char := %s' % _lit(_generator_annotation_name(repo)))
+    out.append('/-- the annotation name `DBusInterface._getXml` writes for every property -/')
+    out.append('def annotationNameGen : List Char := %s' % _lit(ann_gen))
     out.append('')
-    tp = _membership_tuples(repo, 'start_property')
-    if len(tp) != 2:
-        raise TranslatorError('start_property: expected two `x in (<literals>)` tests (readable, writeable), found %r' % tp)
-    ta = _membership_tuples(repo, 'start_annotation')
-    if len(ta) != 1:
-        raise TranslatorError('start_annotation: expected one `x in (<literals>)` test, found %r' % ta)
-    for nm, doc, words in (('readableWords', '`readable = rw.lower() in (...)` of start_property', tp[0]),
-                           ('writeableWords', '`writeable = rw.lower() in (...)` of start_property', tp[1]),
-                           ('emitsTrueWords', '`self.member.emits = str(attrs[\'value\']) in (...)` of start_annotation', ta[0])):
+    for nm, doc, words in (('readableWords', '`readable = rw.lower() in (...)` of start_property', readable),
+                           ('writeableWords', '`writeable = rw.lower() in (...)` of start_property', writeable),
+                           ('emitsTrueWords', '`self.member.emits = str(attrs[\'value\']) in (...)` of start_annotation', emits_true)):
         out.append('/-- %s -/' % doc)
         out.append('def %s : List (List Char) := [%s]' % (nm, ', '.join(_lit(w) for w in words)))
         out.append('')
-    out.append('/-- names of the interfaces described by `_intro`: %s -/' % ', '.join(
+    out.append('/-- names of the standard interfaces: %s -/' % ', '.join(
         v for st, name, attrs in ev if st and name == 'interface' for k, v in attrs if k == 'name'))
     out.append('def introInterfaceCount : Nat := %d' % sum(1 for st, name, _ in ev if st and name == 'interface'))
+    out.append('')
+    out.append('/-- the probe interface: name; methods (name, sigIn, sigOut); signals (name, sig); properties (name, type,')
+    out.append('readable, writeable, emitsOnChange: 0 = True, 1 = False, 2 = \'invalidates\') -/')
+    out.append('def probeName : List Char := %s' % _lit(PROBE_NAME))
+    out.append('def probeMethods : List (List Char × List Char × List Char) := [%s]'
+               % ', '.join('(%s, %s, %s)' % (_lit(n), _lit(a), _lit(r)) for n, a, r in PROBE_METHODS))
+    out.append('def probeSignals : List (List Char × List Char) := [%s]'
+               % ', '.join('(%s, %s)' % (_lit(n), _lit(a)) for n, a in PROBE_SIGNALS))
+    out.append('def probeProperties : List (List Char × List Char × Bool × Bool × Nat) := [%s]'
+               % ', '.join('(%s, %s, %s, %s, %d)' % (_lit(n), _lit(sg), 'true' if r else 'false', 'true' if w else 'false',
+                                                     'tfi'.index(e)) for n, sg, r, w, e in PROBE_PROPS))
+    out.append('')
+    out.append('/-- what the real `_getXml` writes for the probe interface (templates: element and attribute names,')
+    out.append('attribute order, one `<arg>` per complete type, member order) -/')
+    out.append('def probeEvents : List (Bool × List Char × List (List Char × List Char)) := [')
+    out.append(rows_of(pev))
+    out.append(']')
     out.append('')
     out.append('end Txdbus.Gen.IntroStd')
     return '\n'.join(out) + '\n'
